@@ -106,7 +106,7 @@ Stricter(c2, c1) ==     \* parameters of c2 at least as strict as those of c1 (s
                                    b2 == IF q.bbox = <<>> THEN <<-360, -180, 360, 180>> ELSE q.bbox
                                IN  Len(b1) = 4 /\ Len(b2) = 4
                                    /\ b2[1] >= b1[1] /\ b2[2] >= b1[2] /\ b2[3] <= b1[3] /\ b2[4] <= b1[4]
-                            /\ LeOpt(q.rmax, p.rmax)
+                            /\ LeOpt(q.rmax, p.rmax) /\ q.shapes = p.shapes
       [] c1.fn = "spike" -> q.method = p.method /\ LeOpt(q.st, p.st) /\ LeOpt(q.ft, p.ft)
       [] c1.fn = "roc"   -> LeOpt(q.thr, p.thr)
       [] c1.fn = "speed" -> LeOpt(q.st, p.st) /\ LeOpt(q.ft, p.ft)
